@@ -7,7 +7,10 @@ VARIABLES mounts, p
 vars == <<mounts, p>>
 
 MountKeys == SeqsUpTo(MAlpha, MaxMount)
-Tables == {S \in SUBSET MountKeys : Cardinality(S) <= MaxMounts}
+\* built by construction (SUBSET of 40 keys cannot be enumerated)
+Tables == {{}} \cup {{a} : a \in MountKeys}
+          \cup (IF MaxMounts >= 2 THEN {{a, b} : a \in MountKeys, b \in MountKeys} ELSE {})
+          \cup (IF MaxMounts >= 3 THEN {{a, b, c} : a \in MountKeys, b \in MountKeys, c \in MountKeys} ELSE {})
 Init == mounts \in Tables /\ p = <<>>
 Grow == Len(p) < MaxPath /\ (\E c \in PAlpha : p' = Append(p, c)) /\ mounts' = mounts
 NoNext == FALSE /\ UNCHANGED vars
